@@ -12,6 +12,9 @@ def run(ctx):
     c = sc.consts("ebgp", {"ok"}, {"annA", "annAB", "annC6", "noOrigin", "pfxLen33"}, {"badMarker", "lenLong"},
                   {"ManualStop", "HoldExpires", "Notification", "NotifCode7", "ConnLost"}, 8 if not big else 9)
     behs += sc.run_family(ctx, "ebgp exits", c, 8000 if big else 900, sim=(500 if big else 60, 14))
+    # an active peer: the same FSM (and whatever tables it keeps) serves the next session
+    c = sc.consts("ebgpA", {"ok"}, {"annA", "annAB", "noOrigin"}, {"badMarker"}, {"ManualStop", "Notification", "ConnLost", "HoldExpires"}, 8, sessions=2)
+    behs += sc.run_family(ctx, "active peer exits", c, 3000 if big else 200, design=False, sim=(300 if big else 40, 14))
     if big:
         c = sc.consts("ebgp", {"ok"}, {"annA", "noOrigin"}, {"badMarker"}, {"ManualStop", "Notification", "Wait"}, 8, sessions=2)
         behs += sc.run_family(ctx, "all paths ebgp", c, 4000, design=False, allpaths=True)
